@@ -40,10 +40,12 @@ func (mux *ServeMux) match(q string, t uint16) Handler {
 	var handler Handler
 	for off, end := 0, false; !end; off, end = NextLabel(q, off) {
 		if h, ok := mux.z[q[off:]]; ok {
-			if t != TypeDS || handler != nil {
+			if t != TypeDS || off > 0 {
 				return h
 			}
-			// Continue for DS to see if we have a parent too, if so delegate to the parent
+			// The DS record of a zone lives in its parent: when the name itself is a
+			// registered zone, continue to see if we have a parent too, if so delegate
+			// to the parent. A zone found further up already is the parent side.
 			handler = h
 		}
 	}
